@@ -10,20 +10,21 @@ CLAIMS = {
           'hand-written table accumulation model (validated by K on real BAMs); pysam/pandas; read filters are C11.'},
 }
 CLAIMS['C03'] = {
-  'technique': 'Coq proof (induction over strings / dict folds, sortedness of the tie rule, lazy=eager state-machine refinement) + correspondence check of the extracted model against the real BarcodeParser',
+  'technique': 'Coq proof (induction over strings / dict folds, sortedness of the tie rule, lazy=eager state-machine refinement incl. accessor histories) over a kernel regenerated from source by translator + correspondence check of the extracted model against the real BarcodeParser',
   'text': 'For every whitelist file over ACGTN (repeated lines, unequal lengths, N included), every k and every observed string over ACGTN: '
           'the lookup returns (i,b,d) iff b is the unique nearest whitelisted barcode within k, d its Hamming distance, i its index; exact members '
           'map to themselves at distance 0; ties are never assigned; a lazily loaded alias answers every query sequence like an eager one; '
           'hamming_circle is exactly the Hamming sphere. Model = step-by-step transcription of expand/addBarcode/lookup, compared with the real '
           'class on ~60k lookups (exhaustive query sets for short barcodes, all file formats, shipped whitelists) and on the tables themselves.',
-  'note': 'Modelled not verified: file tokenisation / column-order detection of parse_barcode_file (K only), itertools enumeration order of '
-          'hamming_circle (K pins it as a multiset), dict and sorted as association lists / insertion sort. Assumes the ACGTN alphabet and one file per alias.'}
+  'note': 'T: the distance range, tie test and picked index of expand, the alphabet / replacement range / replacement rule of hamming_circle, the lookup order and the column-detection '
+          'character class are regenerated from source on every run (Gen/GenBarcode.v, fail closed) and the model is defined with them. Modelled not verified: file tokenisation, itertools '
+          'enumeration order of hamming_circle (K pins the multiset), dict/sorted as association list / insertion sort, loop skeletons (matched syntactically). Assumes ACGTN and one file per alias.'}
 CLAIMS['C09'] = {
   'technique': 'Coq proof (site arithmetic regenerated from source into GenSite.v + in-Coq ground-truth simulator + mirror theorems, lia) + correspondence on simulated pysam reads',
   'text': 'For every read the simulator can place (motif/overhang at reference position p, either strand, any number of soft-clipped leading/trailing cycles, '
           'any clip-free CIGAR, optionally a lost first cycle under --allow_cycle_shift) NlaIIIFragment assigns DS = coordinate of the recognised CATG and '
           'CHICFragment DS = the base adjacent to the overhang (trimmed and untrimmed layouts); every mapped read without CATG at its start is rejected '
-          '(no DS, not valid, qcfail); mirroring any mapped read onto the reverse-complemented reference mirrors its site and flips its strand (NLA and CHIC).',
+          '(no DS, not valid, qcfail); mirroring any mapped read onto the reverse-complemented reference mirrors its site and flips its strand (NLA and CHIC); the molecule site is the outermost fragment site and molecule-level site/DS after write_tags are mirror-symmetric.',
   'note': 'Regenerated on every run: the tail of both identify_site functions (clip correction, guard chain, offsets, RZ, rejection) by a fail-closed statement '
           'extractor in tools/c09.py (trusted). Modelled not verified (compared in K): pysam reference_end/cigartuples/seq, tag storage, Fragment.__init__ '
           'bookkeeping, set_site/is_valid. Not modelled: no_overhang mode, max_fragment_size, CHIC homopolymer filter. Assumes the soft clip is the outermost '
@@ -33,7 +34,7 @@ CLAIMS['C14'] = {
   'text': 'Context tables equal CG*->z, C[ACT]G->x, C[ACT][ACT]->h for every key (125 contexts x 2, exhaustive, lifted to all keys); for all references, molecules, both '
           'reference kinds and both strand conventions: every call is a strict-majority consensus position inside the mate-overlap-safe span on a reference C/G, its letter '
           'is the true strand context (none when truncated / non-ACGT), upper case iff the consensus shows C>T / G>A; XM has one character per aligned base; '
-          'MC/uC/sZ/sz/sX/sx/sH/sh equal the entry counts (induction over the call list).',
+          'MC/uC/sZ/sz/sX/sx/sH/sh equal the entry counts (induction over the call list); histories: molecules sharing one TAPS object across contigs, and finalise/grow/finalise histories on one molecule, answer as computed alone for the fragments held.',
   'note': 'Modelled not verified: pysam (get_aligned_pairs/MD, FastaFile.fetch), CachedFasta slicing, numpy argmax/tie test, dict/Counter semantics; molecule abstraction '
           'computed by impl_c14.py with pysam; table tie = reflection + AST check (fail closed on refactors of TAPS.__init__). search() evaluates a Python transcription of the statement.'}
 CLAIMS['C17'] = {
@@ -42,7 +43,7 @@ CLAIMS['C17'] = {
           'of blacklisted_binning returns non-empty, increasing, disjoint bins inside the region, each <= bin_size, that together with the blacklisted bases cover the region '
           'exactly once; each fetch window contains its bin, extends it by at most fragment_size and never leaves the region or contains a blacklisted base. fill_range, '
           'merge_overlapping_ranges (termination, disjoint, same bases), trim_rangelist proved separately; concat (bp_chunked l k) = l. 272k cases quick (exhaustive small scopes), 7M thorough.',
-  'note': 'Hand transcription tied to the code by correspondence only (no translator). int(a/b) modelled as Z.quot (exact below 2^53); sorted() as insertion sort. '
+  'note': 'Tie is T+K: comparisons, step/clip/merge expressions, call arguments, sentinel and bp threshold are regenerated into Gen/GenTiling.v on every run and used by the model (37 shape lemmas); control flow is a hand transcription pinned by a skeleton check (fail closed) and by K. int(a/b) modelled as Z.quot (exact below 2^53); sorted() as insertion sort. '
           'blacklisted_binning_contigs and BED/BED.gz reading are exercised through real files but not modelled in Coq.'}
 CLAIMS['C01'] = {
   'technique': 'Coq proof (induction over the pair/strategy lists) about an executable model of the loader, reader and writers, parametric in the strategies; end-to-end correspondence check on real gzip FASTQ files',
@@ -54,13 +55,14 @@ CLAIMS['C01'] = {
           'header codec C04); their outcome class per pair is measured by calling the real code. A partial write (R1 serialised, R2 raising) is modelled and excluded from the theorems by step_ok, which is checked on the real code (C01_partial_write_refuted); prune-crossing per-cell libraries (> 10000 writes) are checked against the specification on the real files only. A reject record that cannot be formatted (over-long library name) aborts the run loudly: outside the '
           'precondition, recorded by C01_reject_crash_refuted. search() uses a Python transcription of Props/C01.v. No translator tie (K only).'}
 CLAIMS['C02'] = {
-  'technique': 'Coq proof (Python-slice lemmas, induction over read tuples, vm_compute over the strategy table regenerated by reflection) + correspondence check against the real strategies',
+  'technique': 'Coq proof (Python-slice lemmas, induction over read tuples, vm_compute over the strategy table regenerated by reflection; Gallina models of the 5 composite strategies and the bulk strategy over the single-protocol arm models, trimmer lemmas by induction, literals regenerated by AST and pinned) + correspondence check against the real strategies',
   'text': 'For every contiguous, scattered or restriction-bisulfite layout of plain shape, every whitelist lookup and every read tuple of any length, an accepted input yields exactly the records whose '
           'bc/RX/RQ/rS/lh/lq are the bases or encoded qualities at the layout positions of the stated mate; emitted sequence and qualities are the same suffix from the insert start, index aligned; '
           'every position is in a tag region or emitted; nothing comes from the other mate; one record per mate. The table regenerated from the 28 registered strategy objects is proved well formed and '
-          'equal to a pinned protocol table for the 22 single-protocol strategies (C02_registered_wf); all 28 are compared with model or statement on ~9k (quick) / 245k (thorough) read tuples.',
-  'note': 'Whitelist lookup (C03) and header parsing (C04) are parameters. Layouts come from reflection plus a trace call; the pinned protocol table is hand-written. The 5 composite strategies and ILLU '
-          'have NO Coq model: covered by K against a Python transcription of the statement only (not claimed as proved). Index-alignment clause assumes equal sequence and quality length.'}
+          'equal to a pinned protocol table for the 22 single-protocol strategies (C02_registered_wf); composites: every accepted pair yields one record per mate, each a contiguous stretch of its own mate at or after the arm insert start with aligned bases/qualities, dropped bases exactly the declared trim (C02_composite_spec, C02_prune_rule, C02_trim_r2); all 28 compared with the model on ~10k (quick) / 245k (thorough) read tuples.',
+  'note': 'Whitelist lookup (C03) and header parsing (C04) are parameters. Layouts come from reflection plus a trace call; the pinned protocol table is hand-written. Composite strategies (TCHIC, CHICTV, '
+          'DamAndT, DamID2andT_*) and ILLU: dispatch structure hand-transcribed and K-validated; re.sub with $ modelled as a suffix strip; DamID2_scattered_10bp exercised with a synthetic whitelist; '
+          'the TCHIC rx tag may come from the reverse complement of read 2 (stated in C02_tchic_spec). Index-alignment clause assumes equal sequence and quality length.'}
 CLAIMS['C04'] = {
   'technique': 'Coq proof (split/join inverse by induction over list Z strings, finite-domain phred tables) + constants/tables regenerated from source by AST and reflection + correspondence through demultiplex -> asFastq -> pysam -> QueryNameFlagger',
   'text': 'For every well-formed tag store decode(asFastq header) restores every written tag; the tagger derives SM=LY_bi, MI=BC+RX+aA, the name Is:RN:Fc:La:Ti:CX:CY and RG; phred tags return as the '
@@ -98,12 +100,12 @@ CLAIMS['C11'] = {
           'XA/NH hit count; by-value adds the tag\'s numeric value; every table cell equals the group-by sum, for plain, -contig and -bedfile runs. 1.6k (quick) / 36k (thorough, all 2^13 option '
           'combinations) create_count_table calls compared as exact Fractions.',
   'note': 'Modelled not verified: pysam/htslib (attributes, 2-character tag lookup, fetch overlap), Counter, pandas. float() modelled for plain decimals only; float-typed tags, -bin (C10), -head, --bulk '
-          'outside the model. No-raise/table theorems assume wf_read and wf_opts. No translator tie (K only).'}
+          'outside the model. No-raise/table theorems assume wf_read and wf_opts. T: the ordered guard chain of read_should_be_counted (14 guards, operators, blacklist interval test), countToAdd of assignReads, the by-value auto-append test and the set of args attributes assigned in the module are regenerated into Gen/GenCountFilter.v (fail closed) and proved equal to the model (C11_source_filter/_weight, C11_stateless); XA parser, blacklist loop, key construction and accumulation remain hand-modelled (K: calls, histories on one namespace, direct assignReads calls).'}
 CLAIMS['C12'] = {
   'technique': 'Coq proof (tiling arithmetic by lia/nia, update-merge = sum for every permutation of job completion, declarative count by induction) about arithmetic and filter regenerated from source + correspondence through obtain_counts',
   'text': 'For every bin size, bins-per-job >= 1, max fragment size and every permutation of job completion order each cell of the matrix merged by obtain_counts equals the declarative count of passing '
           'read-1 records per (key tags, contig, bin floor(site/b), sample); hence identical for all bins-per-job and schedules, total = number of passing records; jobs tile each contig on bin '
-          'boundaries, produced bin ids are owned by one job so the overwriting update-merge is a sum.',
+          'boundaries, produced bin ids are owned by one job so the overwriting update-merge is a sum; the i-th result of any history of counts in one process depends on the i-th call only (C12_history_stateless).',
   'note': 'Hypotheses visible: 0 <= site < contig length and site within max_fragment_size of the aligned span (dropping either is refuted in Coq and reproduced on the code; treated as domain '
           'assumptions). Modelled not verified: pysam fetch overlap, Pool.imap_unordered yields each result once, the loop/dict accumulation around the generated expressions (K). One BAM, '
           'alt_spans=None. get_binned_counts with user regions double counts at region edges (known finding D15).'}
@@ -113,7 +115,7 @@ CLAIMS['C16'] = {
           'addFeature/sort/findFeaturesAt/findFeaturesBetween/findFeaturesAtPysamAlign (any order, lru_cache and its eviction included) every answer equals the brute-force answer on everything added '
           'so far; per-base and per-block read annotation report exactly the features overlapping an aligned base. The pre-fix code is refuted on concrete histories.',
   'note': 'Modelled not verified: np.searchsorted/np.max, list.sort on tuples, set(), lru_cache (LRU list keyed on logical arguments), pysam get_blocks/get_aligned_pairs. Assumes start <= end, '
-          'orderable feature tuples. Not covered: findNearest*, annotateUTRs, GTF/BED loaders. No translator tie (K only).'}
+          'orderable feature tuples. Not covered: findNearest*, annotateUTRs, GTF/BED loaders. T: searchsorted sides/keys, scan/overlap/strand conditions, window ends, the end-1 of per-block annotation, which lookups re-index first and where cache_clear() is called are regenerated into Gen/GenFeatures.v (fail closed) and used by the model (C16_source_kernel); control flow around them is hand-modelled and tied by K.'}
 CLAIMS['C19'] = {
   'technique': 'Coq proof (invariant over the fold of writes for every OS-open oracle) about an executable state-machine model + fault-injecting correspondence check (full open/close traces, files read back)',
   'text': 'For every write sequence, every maxHandles/pruneEvery and every sequence of open() failures in which an open succeeds when no other handle is open, HandleLimiter (hence FastqHandle '
@@ -140,7 +142,7 @@ CLAIMS['C18'] = {
   'technique': 'Coq proof: state-machine refinement of the eager / lazy (clear-on-fetch) / cached AlleleResolver against a loop-free mode-independent specification; character-level write_cache/read_cached round trip; correspondence on the real class',
   'text': 'For every VCF, every phased/select_samples/ignore_conversions setting and every history of runs sharing one cache directory (each run eager, lazy or cached, first run writing, later runs reading, '
           'any query sequence and contig order incl. returning to an evicted contig) getAllelesAt/has_location return exactly the specification: the selected samples whose genotype at the last informative '
-          'record of the site contains the base, nothing for absent, uninformative or ignored-conversion sites; the cache file format round-trips. ~16k (quick) / ~730k (thorough) lookups, cache files byte for byte.',
+          'record of the site contains the base, nothing for absent, uninformative or ignored-conversion sites; the cache file format round-trips; several resolver objects in one process answer independently (C18_objects_independent). ~16k (quick) / ~730k (thorough) lookups, cache files byte for byte.',
   'note': 'Modelled not verified: pysam VCF parsing and tabix fetch (abstraction compared with pysam\'s view of every generated record), gzip/text codec, dict/set semantics. Assumes indexed VCF with >= 1 sample '
           'column, region_start/end None, sample names without blanks/commas, VCF unchanged between runs, and - for histories mixing settings - no two (contig, settings) pairs mapping to one cache '
           'file name (checked per history). The monomorphic rule re-admitting multi-base sites is specified as coded. No translator tie (K only).'}
